@@ -146,6 +146,17 @@ PROPS["C18"] = {
                     "the running patch is the selection a launch start recorded as booting while every record of that number matched the artifact in place; things that happen to that patch itself end the tracking: its boot is reported failed, the server rolls it back or re-issues (re-installs) its number, its artifact or the state files are damaged from outside, the release changes, the process ends"],
 }
 
+PROPS["C13"] = {
+    "modules": ["C13"], "required_theorems": ["sites_covered", "never_panics", "stepP_ok", "applyChannel_ok", "artifactPath_utf8", "pathToCString_ok", "uninit_defaults", "C13_holds"],
+    "monitors": ["C13"],
+    "fields": ["ret", "net", "pj", "pd", "sj"],
+    "campaign": camp([("chaos", 500), ("init", 400), ("strings", 300), ("damage", 300), ("download", 300), ("mixed", 200)],
+                     [("chaos", 8000), ("init", 6000), ("strings", 5000), ("damage", 5000), ("download", 5000), ("network", 4000), ("mixed", 4000), ("release", 2000)]),
+    "assumptions": ["the translator tools/extract_panics.py (lexical: unwrap/expect family, panic!/unreachable!/assert! macros, index expressions, division, a list of std methods that panic on bad arguments) over the production (non-test, non-hook) sources",
+                    "panics inside std and the dependencies (allocation failure, thread spawn failure, serde/zstd/bipatch internals, reqwest client construction) cannot be exhibited by the model: the malformed-input campaign under a process-wide panic hook is the only evidence there",
+                    "std::sync::Mutex poisons exactly when a thread panics while holding the guard"],
+}
+
 # Properties whose theorems are still being written: monitors + correspondence only (not in MANIFEST).
 for _p, _mon, _camp in [
     ("C01", ["C01"], camp(LIFE_Q, LIFE_T)), ("C03", ["C03"], camp(LIFE_Q, LIFE_T)), ("C05", ["C05"], camp(LIFE_Q, LIFE_T)),
